@@ -3,8 +3,9 @@ CONSTANTS Vars <- VarsXY
  Kinds <- KindsC16
  LitIdx <- LitsAll
  Imports <- Both
+ Configs <- ConfigsNow
  Shape = "free"
  Emit = FALSE
 SPECIFICATION Spec
-INVARIANTS HistoryOK FrozenIrrelevant AlgoRefinesPython FoldOnly Fresh WellFormedHeap
+INVARIANTS HistoryOK FrozenIrrelevant AlgoRefinesPython FoldOnly Fresh WellFormedHeap SortIsStable
 CHECK_DEADLOCK FALSE
